@@ -66,6 +66,19 @@ PROPS["C16"] = dict(
     note="Trusted: socket/asyncio stream primitives, pickle, inspect.signature.bind, asyncio scheduling, solvers, pyvc.",
 )
 
+PROPS["C19"] = dict(
+    modules=["contracts.C19_status", "contracts.C06_clean"],
+    decided=["flag logic of report_unbuilt and its helpers (FAILED, PENDING, DRAINED, WARNING bits) against the "
+             "property's sentence", "Builder.finalize stores the code", "TUI status translation keeps every reported bit",
+             "classification of glob violations"],
+    undecided=["that step states in the final database are what the build history should have produced",
+               "the recursive attribution walk of the pending summary (assumed closure; partition checked bounded)"],
+    assumptions=["ReturnCode is a 6-flag bit set", "exit statuses are below 256"],
+    level="The real report_unbuilt / _report_* functions and translate_wait_status are executed symbolically with "
+          "ReturnCode as a vector of booleans; the postconditions are the property's sentence bit by bit.",
+    note="Trusted: analyze_pending's count (bounded partition check), find_glob_violations, SQLite, solvers, pyvc.",
+)
+
 NOT_BUILT = {}
 
 _loaded = False
